@@ -421,7 +421,7 @@ Qed.
 Lemma start_claim_all_ok nd mx : forall k r i, G nd mx r -> 0 <= i -> i + Z.of_nat k <= Z.of_nat nd ->
   Step nd mx r (fst (start_claim_all k r i)) /\ evs_ok (snd (start_claim_all k r i)).
 Proof.
-  induction k; intros r i H H0 Hk; simpl; auto with safe.
+  induction k; intros r i H H0 Hk; [simpl; auto with safe|]. cbn [start_claim_all].
   assert (S0 : Step nd mx r (if dev_src r i =? c_N2kNullCanBusAddress then next_address 300 r i true else r)).
   { destruct (_ =? _); auto with safe. apply next_address_ok; auto. lia. }
   set (r0 := if _ =? _ then _ else r) in *.
@@ -445,7 +445,6 @@ Proof.
   set (r0 := if n_open (rn r) =? 0 then _ else r) in *. destruct E0 as [Es Eq].
   destruct (n_open (rn r0) =? 1).
   - destruct (negb _); cbn [fst snd]; auto 6 with safe.
-    split; [apply with_open_G; auto|]. auto with safe.
   - destruct (sched_is_time _ _ _); cbn [fst snd].
     + pose proof (with_open_G nd mx r0 3 (r_open_sched r0) H0) as H1. set (r1 := with_open r0 3 (r_open_sched r0)) in *.
       pose proof (start_claim_all_ok nd mx (length (n_devs (rn r1))) r1 0 H1 ltac:(lia)) as [S2 V2].
@@ -459,7 +458,7 @@ Proof.
       { chain. }
       destruct S as (HG & Hs & Hq). split; auto. split; [rewrite Hs; auto|]. split; [left; rewrite Hq; auto|].
       apply evs_app; auto. apply evs_note.
-    + split; [|auto with safe]. destruct H0 as [[Ha Hb] Hc]. repeat split; auto.
+    + split; [|auto with safe]. destruct H0 as [[Ha Hb] Hc]. split; [split|]; auto.
 Qed.
 Lemma open_step_open r : snd (open_step r) && (n_open (rn (fst (fst (open_step r)))) =? 3) = true -> True.
 Proof. auto. Qed.
